@@ -541,6 +541,9 @@ func DefaultExternals() map[string]externalFn {
 	for k, v := range binaryExternals {
 		m[k] = v
 	}
+	for k, v := range reflectExternals {
+		m[k] = v
+	}
 	return m
 }
 
@@ -1115,3 +1118,140 @@ func init() {
 var binaryExternals map[string]externalFn
 
 var anyType = types.NewInterfaceType(nil, nil)
+
+// ---------------------------------------------------------------------------
+// minimal reflect: ValueOf / Kind / String / IsNil / Len (enough for kind switches on payloads)
+
+func reflectKind(t types.Type) int {
+	if t == nil {
+		return 0
+	}
+	switch u := t.Underlying().(type) {
+	case *types.Basic:
+		switch u.Kind() {
+		case types.Bool:
+			return 1
+		case types.Int:
+			return 2
+		case types.Int8:
+			return 3
+		case types.Int16:
+			return 4
+		case types.Int32:
+			return 5
+		case types.Int64:
+			return 6
+		case types.Uint:
+			return 7
+		case types.Uint8:
+			return 8
+		case types.Uint16:
+			return 9
+		case types.Uint32:
+			return 10
+		case types.Uint64:
+			return 11
+		case types.Uintptr:
+			return 12
+		case types.Float32:
+			return 13
+		case types.Float64:
+			return 14
+		case types.Complex64:
+			return 15
+		case types.Complex128:
+			return 16
+		case types.String:
+			return 24
+		case types.UnsafePointer:
+			return 26
+		}
+	case *types.Array:
+		return 17
+	case *types.Chan:
+		return 18
+	case *types.Signature:
+		return 19
+	case *types.Interface:
+		return 20
+	case *types.Map:
+		return 21
+	case *types.Pointer:
+		return 22
+	case *types.Slice:
+		return 23
+	case *types.Struct:
+		return 25
+	}
+	return 0
+}
+
+func reflectPayload(v value) iface {
+	st, ok := v.(structure)
+	if !ok || len(st) == 0 {
+		panic(unsupported("reflect.Value not created by the ValueOf intrinsic"))
+	}
+	itf, ok := st[0].(iface)
+	if !ok {
+		return iface{}
+	}
+	return itf
+}
+
+func init() {
+	reflectExternals = map[string]externalFn{
+		"reflect.ValueOf": func(fr *frame, args []value) value {
+			st := zero(fr.fn.Signature.Results().At(0).Type()).(structure)
+			st[0] = args[0].(iface)
+			return st
+		},
+		"(reflect.Value).Kind": func(fr *frame, args []value) value {
+			return uint(reflectKind(reflectPayload(args[0]).t))
+		},
+		"(reflect.Value).IsValid": func(fr *frame, args []value) value {
+			return reflectPayload(args[0]).t != nil
+		},
+		"(reflect.Value).String": func(fr *frame, args []value) value {
+			p := reflectPayload(args[0])
+			if reflectKind(p.t) == 24 {
+				return p.v
+			}
+			return "<value>"
+		},
+		"(reflect.Value).IsNil": func(fr *frame, args []value) value {
+			p := reflectPayload(args[0])
+			switch x := p.v.(type) {
+			case *value:
+				return x == nil
+			case *omap:
+				return x == nil
+			case []value:
+				return x == nil
+			case iface:
+				return x.t == nil
+			case *channel:
+				return x == nil
+			}
+			return false
+		},
+		"(reflect.Value).Len": func(fr *frame, args []value) value {
+			p := reflectPayload(args[0])
+			switch x := p.v.(type) {
+			case *omap:
+				return x.len()
+			case []value:
+				return len(x)
+			case string:
+				return len(x)
+			case array:
+				return len(x)
+			}
+			panic(unsupported("reflect.Value.Len"))
+		},
+		"(reflect.Value).Interface": func(fr *frame, args []value) value {
+			return reflectPayload(args[0])
+		},
+	}
+}
+
+var reflectExternals map[string]externalFn
